@@ -107,6 +107,28 @@ Theorem C03_sle_history_given_conserve : forall j T x st o st' o' e,
 Proof. exact sle_call_given_conserve. Qed.
 Print Assumptions C03_sle_history_given_conserve.
 
+(* VLE on a persistent object: the only remembered fields that reach the flows are _nonzero / _index; after EVERY history of
+   _setup calls the index taken from the object is the one a fresh object computes, so a call on a used stream is the call
+   on a fresh stream (conservation, non-negativity and placement above therefore hold for every history) *)
+Theorem C03_vle_index_history_independent : forall cf mols mol,
+  fst (setup_index cf (setup_history cf vobj0 mols) mol) = vle_idx cf mol.
+Proof. exact vle_index_history_independent. Qed.
+Print Assumptions C03_vle_index_history_independent.
+
+(* binary_phase_fraction.phase_fraction returns a fraction in [0, 1] on every branch (closed form and solver alike) ... *)
+Theorem C03_phase_fraction_range : forall rr zs Ks phi, phase_fraction_m rr zs Ks = Ok phi -> 0 <= phi <= 1.
+Proof. exact phase_fraction_range. Qed.
+Print Assumptions C03_phase_fraction_range.
+(* ... hence an LLE call answered from the object's cache keeps every flow non-negative as soon as the remembered K >= 0 *)
+Theorem C03_lle_cached_nonneg : forall islle rr K molL top mws s s' phi,
+  length (l_l s) = length (l_L s) -> (forall k, 0 <= nthq (l_l s) k /\ 0 <= nthq (l_L s) k) ->
+  (forall p, 0 <= nthq K p) ->
+  lle_cached_phi islle rr K s = Ok phi ->
+  lle_call islle (mklo true K phi molL top mws) s = Ok s' ->
+  forall k, 0 <= nthq (l_l s') k /\ 0 <= nthq (l_L s') k.
+Proof. exact lle_cached_nonneg_lemma. Qed.
+Print Assumptions C03_lle_cached_nonneg.
+
 (* non-vacuity: a two-phase result with a gas-only and a liquid-only chemical, adversarial raw v *)
 Definition cf4 := mkcfg [KVle; KVle; KLight; KHeavy] [0; 0; 0; 2] [18; 46; 28; 58].
 Definition orc_tp := mkorc 0 (fun _ => 0) (fun _ => 0) 0 0 (fun _ => (200000, [1#2; 1#2])) (fun _ => (50000, [1#2; 1#2]))
